@@ -72,12 +72,30 @@ def _tw_mc_dist(c, tier):
         c.probe_phase("TimeWarpMC_d2.tla", "TimeWarpMC_d2_k1.cfg", DIST_PROBES, workers=8, timeout=900, heap="8g")
 
 
-def _sys(pid, tier, seed, own, fams, nq, nt, cq, ct, emphasis=None, size_q="small", size_t="small", fixed=None, mc=None):
+def _replay(c, tier, dist=False):
+    """behaviours of TimeWarpMC imposed on the real code (spec -> code direction of the binding)"""
+    if tier == "quick":
+        c.replay_phase("m1", "TimeWarpMC_m1.tla", "TimeWarpMC_m1_k1.cfg", 160, sim_num=60)
+        if dist:
+            c.replay_phase("d1", "TimeWarpMC_d1.tla", "TimeWarpMC_d1_k1.cfg", 80, ranks=2, threads=1, sim_num=40)
+            c.replay_phase("d2", "TimeWarpMC_d2.tla", "TimeWarpMC_d2_k1.cfg", 80, ranks=2, threads=2, sim_num=40)
+    else:
+        # every behaviour of m1 (all orders of the shared accesses of the two threads)
+        c.replay_phase("m1", "TimeWarpMC_m1.tla", "TimeWarpMC_m1_k1.cfg", 200000, exhaustive=True)
+        c.replay_phase("m2", "TimeWarpMC_m2.tla", "TimeWarpMC_m2_k1.cfg", 6000, sim_num=2500)
+        if dist:
+            c.replay_phase("d1", "TimeWarpMC_d1.tla", "TimeWarpMC_d1_k1.cfg", 6000, ranks=2, threads=1, sim_num=2500)
+            c.replay_phase("d2", "TimeWarpMC_d2.tla", "TimeWarpMC_d2_k1.cfg", 6000, ranks=2, threads=2, sim_num=2500)
+
+
+def _sys(pid, tier, seed, own, fams, nq, nt, cq, ct, emphasis=None, size_q="small", size_t="small", fixed=None, mc=None, replay=False):
     c = syscamp.Campaign(pid, tier, seed, own_ids=own)
     try:
         c.build()
         if mc:
             _tw_mc(c, tier, mc[0] if tier == "quick" else mc[0] + mc[1])
+        if replay:
+            _replay(c, tier)
         c.run(_models(tier, seed, fams, nq, nt, size_q, size_t), cq if tier == "quick" else ct, emphasis=emphasis,
               fixed_cfgs=fixed)
         return c.finish()
@@ -90,7 +108,7 @@ def check_C01(tier, seed):
            ("TimeWarpMC_m1.tla", "TimeWarpMC_m1_k3.cfg", "m1", 3)],
           [("TimeWarpMC_m2.tla", "TimeWarpMC_m2_k1.cfg", "m2 (3 LPs, cascade of depth 2, zero-delay tie)", 1),
            ("TimeWarpMC_m2.tla", "TimeWarpMC_m2_k3.cfg", "m2", 3)])
-    return _sys("C01", tier, seed, ["C01", "C03"], ["mixed", "ties", "zerodelay", "fanout", "chain", "single", "relay", "chain"], 8, 40, 5, 12, mc=mc)
+    return _sys("C01", tier, seed, ["C01", "C03"], ["mixed", "ties", "zerodelay", "fanout", "chain", "single", "relay", "chain"], 8, 40, 5, 12, mc=mc, replay=True)
 
 
 MCG_NOTE = ("TimeWarpMC with an abstract GVT (any safe lower bound, same value for every thread of a round, two values) and fossil collection "
@@ -199,6 +217,7 @@ def check_C06(tier, seed):
         c.micro_phase("m2", 64 if tier == "quick" else 3000)
         c.micro_phase("d1", 48 if tier == "quick" else 2000, ranks=2, threads=1)
         c.micro_phase("d2", 48 if tier == "quick" else 2000, ranks=2, threads=2)
+        _replay(c, tier, dist=True)
         fams = ["fanout", "chain", "mixed", "fanout", "zerodelay", "chain", "ties"]
         c.run(_models(tier, seed, fams, 7, 30), 5 if tier == "quick" else 12, emphasis=em)
         c.run(_models(tier, seed + 50, fams + ["burst"], 4, 16), 6 if tier == "quick" else 14, emphasis=DIST_EM)
@@ -727,6 +746,12 @@ def check_C02(tier, seed):
         # the real code (renamed rank copies over the fake MPI) on the same micro-models, under many schedules
         c.micro_phase("d1", 64 if tier == "quick" else 3000, ranks=2, threads=1)
         c.micro_phase("d2", 64 if tier == "quick" else 3000, ranks=2, threads=2)
+        if tier == "quick":
+            c.replay_phase("d1", "TimeWarpMC_d1.tla", "TimeWarpMC_d1_k1.cfg", 100, ranks=2, threads=1, sim_num=50)
+            c.replay_phase("d2", "TimeWarpMC_d2.tla", "TimeWarpMC_d2_k1.cfg", 100, ranks=2, threads=2, sim_num=50)
+        else:
+            c.replay_phase("d1", "TimeWarpMC_d1.tla", "TimeWarpMC_d1_k1.cfg", 8000, ranks=2, threads=1, sim_num=3000)
+            c.replay_phase("d2", "TimeWarpMC_d2.tla", "TimeWarpMC_d2_k1.cfg", 8000, ranks=2, threads=2, sim_num=3000)
         em = lambda r: {"ranks": r.choice([2, 2, 3]), "threads": r.choice([1, 2, 2, 3]), "net": r.choice([0, 0, 1]),
                         "batch": r.choice([1, 1, 2, 8]), "period": r.choice([0, 0, 40])}
         c.run(_models(tier, seed, ["mixed", "fanout", "ties", "zerodelay", "pingpong", "nonmono", "chain"], 7, 36), 6 if tier == "quick" else 14, emphasis=em)
